@@ -177,7 +177,6 @@ package roundrobin
 //@   at_call rb.next.Next.ServeHTTP routed_to_selection: (calls(rb.next.NextServer) == 1 && callres(rb.next.NextServer, 0, 1) == nil && arg1.URL == callres(rb.next.NextServer, 0, 0)) || (calls(rb.next.NextServer) == 0 && callres(GetBackend, 0, 1) && sameID(arg1.URL, callres(GetBackend, 0, 0)))
 //@   at_call rb.next.Next.ServeHTTP {C02,C09,C11,C20} fresh_url: fresh(arg1.URL)
 
-
 //@ type codeMeter
 //@   extsync
 //@   mutators Rating Record IsReady
